@@ -60,6 +60,31 @@ func checkC14Parse(raw json.RawMessage) (ev.Result, error) {
 		}
 	}
 	low := asciiLower(c.Input)
+	if t := strings.TrimSpace(c.Input); t != c.Input && isASCII(c.Input) {
+		// a documented name surrounded by white space: whether that is accepted is not settled; if it is, it must be the
+		// constant of the trimmed name
+		tl := asciiLower(t)
+		switch c.Kind {
+		case "action":
+			if want, ok := oracle.Actions()[tl]; ok {
+				a := seccomp.Action(0xdeadbeef)
+				if err := a.Unpack(c.Input); err == nil && uint32(a) != want {
+					return res, fmt.Errorf("Action.Unpack(%q) = %#x, the constant of %s is %#x", c.Input, uint32(a), tl, want)
+				}
+				return ev.Result{Classes: []string{"parse:padded-name-no-claim"}}, nil
+			}
+		case "operation":
+			for _, o := range spec.Ops {
+				if asciiLower(o) == tl {
+					var op seccomp.Operation
+					if err := op.Unpack(c.Input); err == nil && string(op) != o {
+						return res, fmt.Errorf("Operation.Unpack(%q) = %q, want %q", c.Input, op, o)
+					}
+					return ev.Result{Classes: []string{"parse:padded-name-no-claim"}}, nil
+				}
+			}
+		}
+	}
 	switch c.Kind {
 	case "action":
 		want, documented := oracle.Actions()[low]
